@@ -563,6 +563,17 @@ func (w *world) doOp(st step) error {
 			return err
 		}
 		w.async("manifest_delete", w.cat.abbr(nd.Digest), false, func() error { return w.rc.ManifestDelete(w.ctx, r) })
+	case "Retag":
+		// a copy inside the layout (same repository): only the manifest is pushed under the new tag
+		src, err := w.tgtRef(key, w.realTag(st.N), "")
+		if err != nil {
+			return err
+		}
+		tgt, err := w.tgtRef(key, w.realTag(st.T), "")
+		if err != nil {
+			return err
+		}
+		w.async("retag", st.T, false, func() error { return w.rc.ImageCopy(w.ctx, src, tgt) })
 	case "PushBlob":
 		nd := w.cat.nodes[st.N]
 		r, err := w.tgtRef(key, "", "")
